@@ -11,7 +11,16 @@ from xml.sax.saxutils import escape
 NS = "https://verif.example/c20"
 NAME = "c20-workload"
 
-INPUTS = [("n", "number"), ("m", "number"), ("s", "string"), ("d", "date"), ("ts", "string"), ("k", "number")]
+INPUTS = [("n", "number"), ("m", "number"), ("s", "string"), ("d", "date"), ("ts", "string"), ("k", "number"),
+          # typed by item definitions with allowed values: calls with allowed and with forbidden values are in flight together
+          ("status", "tStatus"), ("scores", "tScores"), ("person", "tPerson")]
+ITEM_DEFINITIONS = (
+    '<itemDefinition name="tStatus"><typeRef>string</typeRef><allowedValues><text>"EMPLOYED", "RETIRED", "STUDENT"</text></allowedValues></itemDefinition>'
+    '<itemDefinition name="tScore"><typeRef>number</typeRef><allowedValues><text>[0..100]</text></allowedValues></itemDefinition>'
+    '<itemDefinition name="tScores" isCollection="true"><typeRef>tScore</typeRef></itemDefinition>'
+    '<itemDefinition name="tPerson"><itemComponent name="name"><typeRef>string</typeRef></itemComponent>'
+    '<itemComponent name="status"><typeRef>tStatus</typeRef></itemComponent>'
+    '<itemComponent name="age"><typeRef>number</typeRef><allowedValues><text>[0..150]</text></allowedValues></itemComponent></itemDefinition>')
 
 
 def _input_data():
@@ -150,13 +159,15 @@ def _collect_rules():
 def build():
     parts = ['<?xml version="1.0" encoding="UTF-8"?>',
              '<definitions namespace="%s" name="%s" id="_c20" xmlns="https://www.omg.org/spec/DMN/20191111/MODEL/">' % (NS, NAME),
-             _input_data()]
+             ITEM_DEFINITIONS, _input_data()]
     # --- leaf invocables -------------------------------------------------------------------------------
     parts.append(_decision("Numeric", "_numeric", _req_inputs(["n", "m"]), _literal(NUMERIC), "number"))
     parts.append(_decision("Powers", "_powers", _req_inputs(["n", "m"]), _literal(POWERS)))
     parts.append(_decision("Rounding", "_rounding", _req_inputs(["n", "m"]), _literal(ROUNDING)))
     parts.append(_decision("Temporal", "_temporal", _req_inputs(["d", "ts", "k"]), _literal(TEMPORAL)))
     parts.append(_decision("ManyZones", "_manyzones", _req_inputs(["n", "m", "k", "d", "ts"]), _literal(MANYZONES)))
+    parts.append(_decision("Allowed", "_allowed", _req_inputs(["status", "scores", "person"]),
+                           _literal('{st: "You are " + status, total: sum(scores), n: count(scores), who: person.name, pst: person.status, age: person.age}')))
     parts.append(_decision("Regex", "_regex", _req_inputs(["s", "k"]), _literal(REGEX)))
     parts.append(_decision("Flags", "_flags", _req_inputs(["s", "k"]), _literal(FLAGS)))
     parts.append(_decision("Grid", "_grid", _req_inputs(["k", "n"]),
@@ -218,15 +229,16 @@ CLASSES = {
     "numeric": ["Numeric", "Powers", "Rounding"],
     "temporal": ["Temporal", "ManyZones"],
     "regex": ["Regex", "Flags", "Priority"],
+    "typed": ["Allowed"],
     "table": ["Grid", "Collect", "Priority", "Ranked", "Ordered", "Listed", "Least"],
     "nested": ["Top", "Mid", "Outer", "Svc", "Leaf", "Calc", "Band"],
 }
-INVOCABLES = ["Numeric", "Powers", "Rounding", "Temporal", "ManyZones", "Regex", "Flags", "Grid", "Collect", "Priority", "Ranked", "Ordered", "Listed", "Least", "Base", "Leaf", "Svc", "Calc", "Band",
+INVOCABLES = ["Numeric", "Powers", "Rounding", "Temporal", "ManyZones", "Allowed", "Regex", "Flags", "Grid", "Collect", "Priority", "Ranked", "Ordered", "Listed", "Least", "Base", "Leaf", "Svc", "Calc", "Band",
               "Mid", "Top", "Outer"]
 
 
 def class_of(name):
-    for c in ("nested", "numeric", "temporal", "regex", "table"):
+    for c in ("nested", "numeric", "temporal", "regex", "table", "typed"):
         if name in CLASSES[c]:
             return c
     return "other"
